@@ -169,6 +169,9 @@ class Pool:
             self.add(f"expr{k}", self.expr())
         self.add("abs_f", abs(self.f))
         self.add("conj_g", ufl.conj(self.g))
+        # matrix-valued expressions: component tensors, transposes and index permutations of them, nested
+        for k in range(4):
+            self.add(f"tensor{k}", self.tensor(self.rng.randrange(1, 4)))
         # structurally different expressions with naturally colliding hashes (see C13_harness): == has to walk them
         import C13_harness as Hn
         self.collisions = []
@@ -181,7 +184,8 @@ class Pool:
         self.mat = Matrix(self.V, self.V)
         lin, bil = self.f * self.v * dx(m), self.u * self.v * dx(m)
         for nm, o in (("cof0", self.cof[0]), ("cof1", self.cof[1]), ("matrix", self.mat), ("lin", lin), ("bil", bil),
-                      ("formsum_lin", lin + self.cof[0]), ("formsum_bil", bil + self.mat)):
+                      ("formsum_lin", lin + self.cof[0]), ("formsum_bil", bil + self.mat),
+                      ("formsum_w", lin + 2 * self.cof[1]), ("formsum_3", FormSum((lin, 1), (self.cof[0], 3), (self.cof[1], -1)))):
             self.add(nm, o)
         for k, d in enumerate(self.user_dicts):
             self.add(f"userdict{k}", d)
@@ -239,6 +243,22 @@ class Pool:
                 lambda: inner(grad(a), self.w) if not isinstance(a, ufl.classes.ScalarValue) else a,
                 lambda: ufl.conditional(ufl.lt(a, b), a, b), lambda: ufl.variable(a) * b,
                 lambda: a / (1 + b * b)][k]()
+
+    def tensor(self, d):
+        """A 2x2 matrix expression built from component tensors, transposes, index permutations, sym/skew/dev."""
+        r = self.rng
+        w = self.w
+        if d == 0:
+            i, j = ufl.indices(2)
+            return r.choice([lambda: ufl.as_tensor(w[i] * w[j], (i, j)), lambda: ufl.outer(w, w), lambda: ufl.grad(w),
+                             lambda: ufl.as_tensor(self.f * w[i] * w[j], (i, j)),
+                             lambda: ufl.as_matrix([[self.f, self.g], [self.c, self.f]])])()
+        a = self.tensor(d - 1)
+        k, l = ufl.indices(2)
+        return r.choice([lambda: ufl.transpose(a), lambda: ufl.as_tensor(a[l, k], (k, l)),
+                         lambda: ufl.as_tensor(ufl.transpose(a)[l, k], (k, l)), lambda: ufl.as_tensor(a[k, l], (k, l)),
+                         lambda: ufl.sym(a), lambda: ufl.skew(a), lambda: ufl.dev(a), lambda: a + ufl.transpose(a),
+                         lambda: self.f * a, lambda: ufl.dot(a, a)])()
 
     def expr(self):
         for _ in range(5):
@@ -327,6 +347,26 @@ def is_expr(o):
 CFD_OPTIONS = ["do_apply_function_pullbacks", "do_apply_integral_scaling", "do_apply_geometry_lowering",
                "do_estimate_degrees", "do_append_everywhere_integrals", "complex_mode", "do_apply_restrictions",
                "do_apply_default_restrictions", "do_remove_component_tensors", "do_cancel_jacobian_products"]
+
+
+def staged(desc, x, *fns):
+    """fns[-1](...fns[0](x)): every intermediate value is an INPUT of the next stage and must be unchanged by it."""
+    for k, fn in enumerate(fns):
+        y = fn(x)
+        if k + 1 < len(fns) and isinstance(y, (BaseForm, Expr)):
+            before = snapshot(y)
+            z = fns[k + 1](y)
+            after = snapshot(y)
+            if after != before:
+                keys = [key for key in before if before[key] != after.get(key)]
+                raise InputChanged(f"{desc}: stage {k + 2} changed its input (the result of stage {k + 1})",
+                                   [("<intermediate>", key, str(before[key])[:300], str(after.get(key))[:300])
+                                    for key in keys], {"<intermediate>": before["repr"][:600]})
+            # continue the chain from z without recomputing
+            x, fns_rest = z, fns[k + 2:]
+            return staged(desc, x, *fns_rest) if fns_rest else z
+        x = y
+    return x
 
 
 def operations():
@@ -482,13 +522,27 @@ def operations():
         n1, a = pool.pick(lambda o: isinstance(o, BaseForm))
         n2, b = pool.pick(lambda o: isinstance(o, BaseForm) and arity(o) == arity(a))
         n3, c = pool.pick(lambda o: isinstance(o, BaseForm) and arity(o) == arity(a))
-        k = r.randrange(9)
         names = [f"{n1} + {n2}", f"{n1} - {n2}", f"-{n1}", f"3*{n1}", f"FormSum(({n1}, 2), ({n2}, -1))",
                  f"FormSum(({n1}, 1), ({n2}, 1), ({n3}, 1))", f"({n1} + {n2}) + {n3}", f"action({n1}, g)",
-                 f"adjoint({n1})"]
+                 f"adjoint({n1})", f"FormSum(({n1}, 1))", f"type({n1})(*operands)"]
         fns = [lambda: a + b, lambda: a - b, lambda: -a, lambda: 3 * a, lambda: FormSum((a, 2), (b, -1)),
                lambda: FormSum((a, 1), (b, 1), (c, 1)), lambda: (a + b) + c, lambda: action(a, pool.g),
-               lambda: adjoint(a)]
+               lambda: adjoint(a), lambda: FormSum((a, 1)), lambda: a._ufl_expr_reconstruct_(*a.ufl_operands)]
+        k = r.randrange(len(fns))
+        return names[k], fns[k]()
+
+    def op_baseform_alg(pool, r):
+        """map_integrands-based algorithms applied DIRECTLY to base forms (FormSum, Cofunction, Matrix, Action ...)"""
+        n1, a = pool.pick(lambda o: isinstance(o, BaseForm) and not isinstance(o, Form))
+        k = r.randrange(8)
+        names = [f"derivative({n1}, f)", f"apply_derivatives({n1})", f"apply_algebra_lowering({n1})",
+                 f"expand_derivatives({n1})", f"replace({n1}, {{f: g}})", f"apply_derivatives(derivative({n1}, f))",
+                 f"apply_derivatives(derivative({n1}, u))", f"renumber_indices({n1})"]
+        fns = [lambda: derivative(a, pool.f), lambda: apply_derivatives(a), lambda: apply_algebra_lowering(a),
+               lambda: expand_derivatives(a), lambda: replace(a, {pool.f: pool.g}),
+               lambda: staged(names[5], a, lambda x: derivative(x, pool.f), apply_derivatives),
+               lambda: staged(names[6], a, lambda x: derivative(x, pool.f, pool.u), apply_derivatives),
+               lambda: renumber_indices(a)]
         return names[k], fns[k]()
 
     def op_reapply(pool, r):
@@ -500,22 +554,28 @@ def operations():
     ops = {
         "reapply_constructor": op_reapply,
         "baseform_algebra": op_baseform,
+        "baseform_algorithms": op_baseform_alg,
+        "baseform_algorithms2": op_baseform_alg,
         "baseform_algebra2": op_baseform,
         "compute_form_data": cfd,
         "expand_derivatives": form_op(expand_derivatives, "expand_derivatives"),
         "apply_algebra_lowering": form_op(apply_algebra_lowering, "apply_algebra_lowering"),
-        "apply_derivatives": form_op(lambda a: apply_derivatives(apply_algebra_lowering(a)), "apply_derivatives.lowering"),
-        "apply_function_pullbacks": form_op(lambda a: apply_function_pullbacks(apply_algebra_lowering(a)),
+        "apply_derivatives": form_op(lambda a: staged("apply_derivatives.lowering", a, apply_algebra_lowering,
+                                                      apply_derivatives), "apply_derivatives.lowering"),
+        "apply_function_pullbacks": form_op(lambda a: staged("apply_function_pullbacks.lowering", a,
+                                                             apply_algebra_lowering, apply_function_pullbacks),
                                             "apply_function_pullbacks.lowering"),
         "apply_integral_scaling": form_op(ais.apply_integral_scaling, "apply_integral_scaling"),
-        "apply_geometry_lowering": form_op(lambda a: apply_geometry_lowering(ais.apply_integral_scaling(a)),
+        "apply_geometry_lowering": form_op(lambda a: staged("apply_geometry_lowering.scaling", a,
+                                                            ais.apply_integral_scaling, apply_geometry_lowering),
                                            "apply_geometry_lowering.scaling"),
         "apply_restrictions": form_op(lambda a: Form([apply_restrictions(i) for i in apply_algebra_lowering(a).integrals()]),
                                       "apply_restrictions.lowering"),
         "attach_estimated_degrees": form_op(cfd_mod.attach_estimated_degrees, "attach_estimated_degrees"),
         "group_form_integrals": form_op(lambda a: da.group_form_integrals(a, a.ufl_domains()), "group_form_integrals"),
         "renumber_indices": form_op(renumber_indices, "renumber_indices"),
-        "remove_complex_nodes": form_op(lambda a: remove_complex_nodes(apply_algebra_lowering(a)), "remove_complex_nodes.lowering"),
+        "remove_complex_nodes": form_op(lambda a: staged("remove_complex_nodes.lowering", a, apply_algebra_lowering,
+                                                         remove_complex_nodes), "remove_complex_nodes.lowering"),
         "replace": op_replace, "derivative": op_derivative, "action": op_action, "adjoint": op_adjoint,
         "lhs_rhs_system": op_lhs_rhs, "eq_hash": op_eq, "eq_weak_hash": op_eq_weak, "eq_hash_collision": op_eq_collision, "eq_rebuilt": op_eq_rebuilt, "signature": op_signature,
         "degree": op_degree, "form_arith": op_arith, "unary": op_unary, "binary": op_binary,
@@ -545,8 +605,9 @@ def run_history(seed, length, ops, only=None):
             desc, res = ops[name](pool, sub)
         except InputChanged as ex:
             log.append((step, ex.args[0]))
-            return log, {"step": step, "operation": ex.args[0], "changed": [("<copy>", "repr", "", ex.args[1])],
-                         "seed": seed, "abs_self_cycles": {}, "objects": {}}
+            chg = ex.args[1] if isinstance(ex.args[1], list) else [("<copy>", "repr", "", ex.args[1])]
+            return log, {"step": step, "operation": ex.args[0], "changed": chg[:6],
+                         "seed": seed, "abs_self_cycles": {}, "objects": ex.args[2] if len(ex.args) > 2 else {}}
         except RecursionError:
             desc, res = f"{name}: RecursionError", None
         except (KeyboardInterrupt, SystemExit):
